@@ -169,7 +169,7 @@ Proof.
 Qed.
 
 (** impl_simplest_from_float! (f32/f64): "left" is the larger end point est + 1/2, as in the source *)
-Theorem simplest_from_ieee_asis_closed : forall mb eb bits,
+Theorem simplest_from_ieee_pinned_closed : forall mb eb bits,
   let E := (bits / 2 ^ mb) mod 2 ^ eb in
   let M := bits mod 2 ^ mb in
   let neg := (bits / 2 ^ (mb + eb)) mod 2 =? 1 in
@@ -177,13 +177,13 @@ Theorem simplest_from_ieee_asis_closed : forall mb eb bits,
   let man := if neg then - man0 else man0 in
   let ex := (if E =? 0 then 1 else E) - (2 ^ (eb - 1) - 1) - mb in
   let est : frac := if 0 <=? ex then (man * 2 ^ ex, 1) else (man, 2 ^ (- ex)) in
-  simplest_from_ieee_asis mb eb bits =
+  simplest_from_ieee_pinned mb eb bits =
   if E =? 2 ^ eb - 1 then Ok None
   else if (E =? 0) && (M =? 0) then Ok (Some (0, 1))
   else opt_wrap (simplest_closed (freduce (2 * fst est + 1, 2 * snd est), freduce (2 * fst est - 1, 2 * snd est),
                                   Z.even bits, Z.even bits)).
 Proof.
-  intros mb eb bits E M neg man0 man ex est. unfold simplest_from_ieee_asis.
+  intros mb eb bits E M neg man0 man ex est. unfold simplest_from_ieee_pinned.
   fold E M neg man0 man ex est.
   destruct (E =? 2 ^ eb - 1); [reflexivity|]. destruct ((E =? 0) && (M =? 0)); [reflexivity|].
   assert (Hd : 0 < 2 * snd est).
